@@ -13,6 +13,8 @@ import Acra.Gen.Src.Cls.PTPTime
 import Acra.Gen.Src.Cls.RTCTime
 import Acra.Gen.Src.Cls.UDP
 import Acra.Gen.Src.Cls.PcapRecord
+import Acra.Gen.Src.Cls.IENA
+import Acra.Model.IENA
 import Acra.Gen.Src.Cls.ICMP
 import Acra.Model.iNetX
 import Acra.Model.Pcap
@@ -92,6 +94,31 @@ theorem dom_ofModel (s : State) : Dom (ofModel s) := by
   simp [Dom, ofModel]
 
 end iNetX
+/-! ### IENA (IENA.py, the base class) — model `Model.IENA.Base`.  The model's `key` is the attribute `_key` (seen through
+    the `key` / `streamid` properties).  Not carried by the model: `_packetStrut` (constant Struct), `_startOfYear`
+    (a datetime, used only by the time helpers), `_req_attr` (the constant tuple `IENA.REQ_ATTR`). -/
+namespace IENA
+abbrev Obj := Gen.Src.Cls.IENA.Obj
+def toModel (o : Obj) : Model.IENA.Base :=
+  { key := o._key.toNat, size := o.size.toNat, timeusec := o.timeusec.toNat, keystatus := o.keystatus.toNat,
+    status := o.status.toNat, sequence := o.sequence.toNat, endfield := o.endfield.toNat, payload := o.payload,
+    lengthError := o.lengthError }
+def ofModel (s : Model.IENA.Base) : Obj :=
+  { _key := s.key, size := s.size, timeusec := s.timeusec, keystatus := s.keystatus, status := s.status,
+    sequence := s.sequence, endfield := s.endfield, payload := s.payload, lengthError := s.lengthError }
+def Dom (o : Obj) : Prop :=
+  0 ≤ o._key ∧ 0 ≤ o.size ∧ 0 ≤ o.timeusec ∧ 0 ≤ o.keystatus ∧ 0 ≤ o.status ∧ 0 ≤ o.sequence ∧ 0 ≤ o.endfield
+instance (o : Obj) : Decidable (Dom o) := by unfold Dom; infer_instance
+@[simp] theorem toModel_ofModel (s : Model.IENA.Base) : toModel (ofModel s) = s := by
+  cases s; simp [toModel, ofModel]
+theorem ofModel_toModel (o : Obj) (h : Dom o) : ofModel (toModel o) = o := by
+  obtain ⟨h1, h2, h3, h4, h5, h6, h7⟩ := h
+  cases o
+  simp only [toModel, ofModel] at *
+  simp only [Int.toNat_of_nonneg, h1, h2, h3, h4, h5, h6, h7]
+theorem dom_ofModel (s : Model.IENA.Base) : Dom (ofModel s) := by simp [Dom, ofModel]
+end IENA
+
 /-! ### PTPTime (IRIG106/Chapter11/__init__.py) — model `Model.Ch11.PTP`, every attribute carried -/
 namespace PTPTime
 abbrev Obj := Gen.Src.Cls.PTPTime.Obj
